@@ -13,6 +13,7 @@ import (
 	"strings"
 	"sync"
 	"testing"
+	"testing/synctest"
 	"time"
 
 	"pgregory.net/rapid"
@@ -367,4 +368,72 @@ func TestC14Live(t *testing.T) {
 	runtime.GOMAXPROCS(runtime.NumCPU())
 	ev.SetExtra("live_rounds", rounds)
 	w.Stop()
+}
+
+// TestC14Sizes: one server-originated transaction of every total wire length in a
+// contiguous range (an instant message whose text grows one byte at a time), each written
+// to the receiver in one piece: its announced sizes, its parameter count and its bytes must
+// be whole, and nothing may be left over in the stream.  Exhaustive over the range; the
+// shards take the residue classes.
+func TestC14Sizes(t *testing.T) {
+	ev := evid.New("C14", "TestC14Sizes")
+	defer ev.Flush()
+	shard, nsh := shardInfo()
+	maxLen := 9000
+	if thorough() {
+		maxLen = 65000
+	}
+	minWire, maxWire := 1<<30, 0
+	synctest.Test(t, func(t *testing.T) {
+		w, err := hlsim.New(worldBase(), hlsim.Options{Agreement: "a", Accounts: []hlsim.AccountSpec{acct("admin", "Admin", "adminpw", allAccess)}})
+		if err != nil {
+			t.Fatalf("harness: %v", err)
+		}
+		w.Start()
+		defer func() {
+			w.Stop()
+			w.Remove()
+		}()
+		login := func(remote, name string) *hlsim.Conn {
+			c := w.Connect(remote)
+			if c.Login(hlsim.LoginOpts{Login: "admin", Password: "adminpw", Name: []byte(name), Icon: 1}) == nil {
+				t.Fatalf("harness: login failed")
+			}
+			return c
+		}
+		sender, receiver := login("10.14.9.1:1", "sender"), login("10.14.9.2:1", "receiver")
+		sender.TakeInbox()
+		receiver.TakeInbox()
+		for L := shard; L <= maxLen; L += nsh {
+			msg := make([]byte, L)
+			for i := range msg {
+				msg[i] = byte('a' + (i+L)%23)
+			}
+			r := sender.Request(hlref.TranSendInstantMsg, fld(hlref.FUserID, hlref.BE16(2)), fld(hlref.FData, msg), fld(hlref.FOptions, hlref.BE16(1)))
+			if !okReply(r) {
+				t.Fatalf("harness: instant message of %d bytes refused: %s", L, replySummary(r))
+			}
+			in := receiver.TakeInbox()
+			wire := 0
+			if len(in) == 1 {
+				wire = len(in[0].Encode())
+			}
+			if receiver.Bad != nil || receiver.Partial() != 0 {
+				t.Fatalf("VERIF-VIOLATION C14 a server message carrying %d bytes of text left the receiver's stream unparseable or with %d bytes that do not form a whole transaction (%v)", L, receiver.Partial(), receiver.Bad)
+			}
+			if len(in) != 1 || in[0].Type != hlref.TranServerMsg {
+				t.Fatalf("VERIF-VIOLATION C14 a server message carrying %d bytes of text arrived as %s", L, tranSummary(in))
+			}
+			if d, _ := in[0].Get(hlref.FData); !bytes.Equal(d, msg) {
+				t.Fatalf("VERIF-VIOLATION C14 a server message carrying %d bytes of text arrived with %d bytes of text", L, len(d))
+			}
+			if s := sender.TakeInbox(); len(s) != 0 || sender.Partial() != 0 {
+				t.Fatalf("VERIF-VIOLATION C14 the sender received more than the reply: %s", tranSummary(s))
+			}
+			minWire, maxWire = min(minWire, wire), max(maxWire, wire)
+			ev.Case(evid.Hash("size", wire), wire > 512, "wire-length-swept")
+		}
+	})
+	ev.SetExtra("exhaustive", true)
+	ev.SetExtra("exhaustive_subspaces", fmt.Sprintf("every total wire length of a server-originated transaction from %d to %d bytes in steps of %d (this shard; all shards together: every length)", minWire, maxWire, nsh))
 }
